@@ -26,6 +26,8 @@ def spaces(tier):
         sp.append(("1d", (n,), (-3, -2, -1, 0, 1, 2, 3)))
     sp += [("2d", (2, 2), (-2, -1, 0, 1, 2)), ("2d", (2, 3), (-2, -1, 0, 1, 2)), ("2d", (3, 2), (-2, -1, 0, 1, 2))]
     sp += [("3d", (2, 2, 2), (-1, 0, 1, 2))]
+    # four lanes: room for a level with TWO tied lanes next to a level with one lane below a higher level (multiplicities 2+1)
+    sp += [("2d", (2, 4), (0, 1, 2)), ("2d", (4, 2), (0, -1, 2))]
     if tier == "thorough":
         sp += [("1d", (6,), (-2, -1, 0, 1, 2)), ("2d", (3, 3), (-1, 0, 1, 2)), ("2d", (2, 4), (-2, -1, 0, 1, 2)), ("3d", (2, 2, 3), (-1, 0, 1)),
                ("2d", (4, 2), (-2, -1, 0, 1, 2))]
